@@ -213,6 +213,8 @@ def split_cells(g, tier):
     cells = list(range(int(lo), int(hi) + 1))
     if tier == "quick" and g.attrs.get("qsplit"):
         cells = [int(x) for x in g.attrs["qsplit"].split(",")]
+    if os.environ.get("VF_CELLS"):     # development aid: run only these cells
+        cells = [int(x) for x in os.environ["VF_CELLS"].split(",")]
     return [(name, c) for c in cells]
 
 
@@ -268,7 +270,7 @@ def run_group(low, g, tier, keep=False, cell=None):
         cmd += ["--unwind", "1"]
     if a.get("unwindset"):
         cmd += ["--unwindset", a["unwindset"]]
-    solver = a.get("solver", "minisat")
+    solver = a.get("solver", os.environ.get("VF_SOLVER", "minisat"))
     if solver == "kissat":
         cmd += ["--external-sat-solver", "kissat"]
     elif solver in ("cvc5", "z3"):
@@ -544,7 +546,9 @@ def obligations_for(res, prop):
     out = []
     for o in res["obligations"]:
         m = re.match(r"^(C\d\d):", o["desc"])
-        if m and m.group(1) != prop and prop != "all":
+        # an assertion tagged "Cxx:" counts for that property only — provided the group is registered for Cxx at all;
+        # otherwise (e.g. the handler-silent obligation in a group that does not list C05) it counts for the group's properties
+        if m and m.group(1) != prop and prop != "all" and m.group(1) in res.get("props", []):
             continue
         out.append(o)
     return out
